@@ -528,6 +528,9 @@ func ruleLineLimitCounting(c *Ctx) {
 	R := c.R
 	_, s := c.Std()
 	R.Rule("R-linelimit-threshold", "E6 thresholds", "lineLimitReader.Read: +1 per octet, reset to 0 only on LF, refusal exactly when count > LineLimit, bypass only for LineLimit == 0", 7)
+	// the count belongs to the limiter: the buffered reader above it reads ahead, so a reset from outside (per
+	// command line, say) forgets octets of the next line that have already been counted and buffered
+	c.obWriters("lineLimitReader.curLineLength", "counted by Read only; zeroed by construction", "(*lineLimitReader).Read")
 	if f := c.A.Func("(*lineLimitReader).Read"); f != nil {
 		var loop *loopInfo
 		for _, li := range findLoops(f) {
